@@ -7,14 +7,15 @@
   (Model/Track.lean, Model/Mixer.lean) — the definitions the `mixtrk` twin runs bit-exactly against kira.
   All statements are for every number type `α`, every tree, every abstract sound / effect.
 
-  Two clauses of the property are FALSE of the current code and are proved false here:
-  * "the state reported by a track handle is always one of the five track states":
-    `C12_state_stopped_reachable` (resume_at on a clock that does not exist ⇒ Stopped ⇒ undecodable);
-    what does hold is `C12_state_decodable_partial`;
-  * "dropping the handle of a persisting track lets its sounds finish" and "a track is never removed
-    while a descendant is alive" ignore resources still in the new-resource rings:
-    `C12_pending_sound_lost`, `C12_pending_child_lost`; the rules that do hold are
-    `C12_removal_rule` and `C12_removed_when_partial`.
+  "The state reported by a track handle is always one of the five track states and querying it never
+  panics" is `C12_state_decodable` (all reachable states; since kira fix "track waiting on a dropped
+  clock stays paused": `C12_missing_clock_leaves_paused`).
+  "Dropping the handle of a persisting track lets its sounds finish" is `C12_removal_rule` /
+  `C12_removed_when_leaf` (pending sounds count since kira fix "persisting track was removed with a
+  sound still waiting to be added": `C12_pending_sound_kept`).
+  "A track is never removed while a descendant track is alive" is `C12_removal_rule` / `C12_removed_when`
+  (sub-tracks still in the new-resource ring count since kira fix "parent track was removed with a
+  sub-track still waiting to be added": `C12_pending_child_kept`).
 -/
 import KiraModel.Proofs.TrackLifeLemmas
 
@@ -76,39 +77,97 @@ theorem C12_resume_continues_probe (t t' : Trk α (PSnd α) (PFx α) Unit) (d : 
   rw [(C12_resume_continues probeComps d t t' h).2.2.1]
 
 /-- **Removal rule.**  `should_be_removed` holds iff the handle was dropped, and (the track does not
-    persist or it has no inserted sounds), and every inserted sub-track is itself removable; hence a
-    removable track has only removable inserted descendants, all of whose handles were dropped — a track
-    is never removed while an *inserted* descendant is not removable.  At `on_start_processing` exactly
-    the removable tracks of an arena disappear (ids of the survivors, in order). -/
+    persist or it has no sound at all: none inserted, none waiting in the new-resource ring), and no
+    sub-track is waiting in the new-resource ring, and every inserted sub-track is itself removable.  Hence:
+    * a removable track has only removable descendants (inserted or in a ring, at any depth), all of whose
+      handles were dropped — **a track is never removed while a descendant track is alive**;
+    * a dropped persisting track with a live or pending sound is not removable — it **keeps playing until
+      its sounds finish**;
+    * a track with a pending sub-track, or with an inserted sub-track that is not removable, is not removable. -/
 theorem C12_removal_rule (d : TrkData α S E P) (children pending : List (Trk α S E P)) :
     (Trk.shouldBeRemoved (.node d children pending) = true
-        ↔ d.marked = true ∧ (d.persist = true → d.sounds = []) ∧ ∀ c ∈ children, Trk.shouldBeRemoved c = true)
+        ↔ d.marked = true ∧ (d.persist = true → d.sounds = [] ∧ d.pendingSounds = []) ∧ pending = []
+            ∧ ∀ c ∈ children, Trk.shouldBeRemoved c = true)
       ∧ (Trk.shouldBeRemoved (.node d children pending) = true →
           ∀ x ∈ Trk.descendants (.node d children pending), Trk.shouldBeRemoved x = true ∧ x.data.marked = true)
-      ∧ (Trk.onStartKept C children).map (·.data.id)
-          = (children.filter (fun t => !Trk.shouldBeRemoved t)).map (·.data.id) :=
-  ⟨Trk.shouldBeRemoved_iff d children pending, Trk.removable_descendants _, Trk.onStartKept_ids C children⟩
+      ∧ ((∃ x ∈ Trk.descendants (.node d children pending), x.data.marked = false) →
+          Trk.shouldBeRemoved (.node d children pending) = false)
+      ∧ (d.persist = true → (d.sounds ≠ [] ∨ d.pendingSounds ≠ []) →
+          Trk.shouldBeRemoved (.node d children pending) = false)
+      ∧ ((pending ≠ [] ∨ ∃ c ∈ children, Trk.shouldBeRemoved c = false) →
+          Trk.shouldBeRemoved (.node d children pending) = false) := by
+  have hiff := Trk.shouldBeRemoved_iff d children pending
+  refine ⟨hiff, Trk.removable_descendants _, ?_, ?_, ?_⟩
+  · rintro ⟨x, hx, hm⟩
+    cases hr : Trk.shouldBeRemoved (.node d children pending) with
+    | false => rfl
+    | true => rw [(Trk.removable_descendants _ hr x hx).2] at hm; cases hm
+  · intro hp hs
+    cases hr : Trk.shouldBeRemoved (.node d children pending) with
+    | false => rfl
+    | true =>
+      have := (hiff.mp hr).2.1 hp
+      rcases hs with hs | hs
+      · exact absurd this.1 hs
+      · exact absurd this.2 hs
+  · intro hs
+    cases hr : Trk.shouldBeRemoved (.node d children pending) with
+    | false => rfl
+    | true =>
+      obtain ⟨_, _, hp, hc⟩ := hiff.mp hr
+      rcases hs with hs | ⟨c, hc', hcr⟩
+      · exact absurd hp hs
+      · rw [hc c hc'] at hcr; cases hcr
 
-/-- **When a track is removed** (what `Mixer::on_start_processing` does to the top-level arena; the same
-    equation holds inside every track for its sub-tracks): every track still in the new-resource ring is
-    inserted at the head — even if its handle has already been dropped, so such a track is rendered for one
-    callback and removed "the one after" — and the inserted tracks that are removable disappear. -/
-theorem C12_removed_when (m : Mixer α S E P) :
+/-- **When a track is removed** (what `Mixer::on_start_processing` does to the top-level arena, and what
+    `Track::on_start_processing` does to the sub-tracks of every track): every track still in the
+    new-resource ring is inserted at the head — even if its handle has already been dropped, so such a track
+    is rendered for one callback and removed "the one after" — and exactly the inserted tracks that are
+    removable (`C12_removal_rule`) disappear: a track that is not removable — its handle alive, or a
+    descendant's, or persisting with a live or pending sound, or with a pending sub-track — is still there
+    after the callback (having run its own `on_start_processing`). -/
+theorem C12_removed_when (m : Mixer α S E P) (d : TrkData α S E P) (children pending : List (Trk α S E P)) :
     (m.onStart C).subTracks.map (·.data.id)
-      = (m.pendingSubTracks.map (·.data.id)).reverse
-          ++ (m.subTracks.filter (fun t => !Trk.shouldBeRemoved t)).map (·.data.id) := by
-  simp [Mixer.onStart, Trk.onStartList_ids, Trk.onStartKept_ids, List.map_reverse]
+        = (m.pendingSubTracks.map (·.data.id)).reverse
+            ++ (m.subTracks.filter (fun t => !Trk.shouldBeRemoved t)).map (·.data.id)
+      ∧ (∀ t ∈ m.subTracks, Trk.shouldBeRemoved t = false → Trk.onStart C t ∈ (m.onStart C).subTracks)
+      ∧ (∀ t ∈ m.pendingSubTracks, Trk.onStart C t ∈ (m.onStart C).subTracks)
+      ∧ (m.onStart C).pendingSubTracks = []
+      ∧ (Trk.onStart C (.node d children pending)).children.map (·.data.id)
+          = (pending.map (·.data.id)).reverse ++ (children.filter (fun t => !Trk.shouldBeRemoved t)).map (·.data.id)
+      ∧ (∀ t ∈ children, Trk.shouldBeRemoved t = false →
+          Trk.onStart C t ∈ (Trk.onStart C (.node d children pending)).children)
+      ∧ (∀ t ∈ pending, Trk.onStart C t ∈ (Trk.onStart C (.node d children pending)).children)
+      ∧ (Trk.onStart C (.node d children pending)).pending = [] := by
+  refine ⟨?_, ?_, ?_, rfl, ?_, ?_, ?_, ?_⟩
+  · simp [Mixer.onStart, Trk.onStartList_ids, Trk.onStartKept_ids, List.map_reverse]
+  · intro t ht hr
+    simp only [Mixer.onStart, List.mem_append]
+    exact Or.inr (Trk.onStartKept_mem C _ t ht hr)
+  · intro t ht
+    simp only [Mixer.onStart, List.mem_append, List.mem_reverse]
+    exact Or.inl (Trk.onStartList_mem C _ t ht)
+  · rw [Trk.onStart]
+    simp [Trk.children, Trk.onStartList_ids, Trk.onStartKept_ids, List.map_reverse]
+  · intro t ht hr
+    rw [Trk.onStart]
+    simp only [Trk.children, List.mem_append]
+    exact Or.inr (Trk.onStartKept_mem C _ t ht hr)
+  · intro t ht
+    rw [Trk.onStart]
+    simp only [Trk.children, List.mem_append, List.mem_reverse]
+    exact Or.inl (Trk.onStartList_mem C _ t ht)
+  · rw [Trk.onStart]; rfl
 
-/-- Corollaries for a track without inserted sub-tracks.  Not persisting: removable iff its handle was
-    dropped (so it goes at the next callback).  Persisting: removable iff dropped and no inserted sound is
-    left — and at each `on_start_processing` the sound arena becomes "pending sounds (newest first), then
-    the unfinished ones", so with nothing pending it empties exactly when the last sound has finished and
-    the track goes at the callback after that.
-    FULL STATEMENT ("…keeps playing until its sounds finish") IS FALSE: the rule looks only at *inserted*
-    sounds / sub-tracks; see `C12_pending_sound_lost`, `C12_pending_child_lost`. -/
-theorem C12_removed_when_partial (d : TrkData α S E P) (pending : List (Trk α S E P)) :
-    (d.persist = false → (Trk.shouldBeRemoved (.node d [] pending) = true ↔ d.marked = true))
-      ∧ (d.persist = true → (Trk.shouldBeRemoved (.node d [] pending) = true ↔ d.marked = true ∧ d.sounds = []))
+/-- Corollaries for a track without sub-tracks.  Not persisting: removable iff its handle was dropped (so
+    it goes at the next callback).  Persisting: removable iff dropped and no sound is left, inserted or
+    pending — and at each `on_start_processing` the sound arena becomes "pending sounds (newest first), then
+    the unfinished ones", so it empties exactly when the last sound has finished and the track goes at the
+    callback after that: a dropped persisting track keeps playing until its sounds finish. -/
+theorem C12_removed_when_leaf (d : TrkData α S E P) (pending : List (Trk α S E P)) :
+    (d.persist = false → (Trk.shouldBeRemoved (.node d [] []) = true ↔ d.marked = true))
+      ∧ (d.persist = true →
+          (Trk.shouldBeRemoved (.node d [] []) = true ↔ d.marked = true ∧ d.sounds = [] ∧ d.pendingSounds = []))
       ∧ (Trk.onStart C (.node d [] pending)).data.sounds.length
           = d.pendingSounds.length + (d.sounds.filter (fun s => !C.sndFinished s)).length := by
   refine ⟨?_, ?_, ?_⟩
@@ -118,24 +177,40 @@ theorem C12_removed_when_partial (d : TrkData α S E P) (pending : List (Trk α 
       intro d; unfold Trk.readCommands Trk.publish; dsimp only; split <;> split <;> exact ⟨rfl, rfl⟩
     rw [Trk.onStart]; simp [Trk.data, removeAndAdd, (hs d).1, (hs d).2]
 
-/-- **Finding (b), proved of the model**: a persisting track whose handle is dropped while a sound is
-    still in its new-resource ring is removable — the sound is dropped with it, never heard. -/
-theorem C12_pending_sound_lost (s : S) :
-    ∃ t : Trk α S E P, t.data.persist = true ∧ t.data.pendingSounds = [s] ∧ Trk.shouldBeRemoved t = true :=
-  ⟨Trk.hDrop (Trk.hPlay s (Trk.build 0 (0.0 : α) [] [] true 1)),
-    by simp [Trk.hDrop, Trk.hPlay, Trk.mapData, Trk.build, Trk.data],
-    by simp [Trk.hDrop, Trk.hPlay, Trk.mapData, Trk.build, Trk.data],
-    by simp [Trk.hDrop, Trk.hPlay, Trk.mapData, Trk.build, Trk.shouldBeRemoved, Trk.anyNotRemovable]⟩
+/-- **A sound still in the ring keeps a dropped persisting track** (the history of the repaired finding
+    (b)): play a sound on a persisting track and drop the handle before the next callback — the track is
+    not removable, and `on_start_processing` inserts the sound (so it is rendered from that callback on). -/
+theorem C12_pending_sound_kept (s : S) :
+    let t : Trk α S E P := Trk.hDrop (Trk.hPlay s (Trk.build 0 (0.0 : α) [] [] true 1))
+    t.data.persist = true ∧ t.data.marked = true ∧ t.data.pendingSounds = [s]
+      ∧ Trk.shouldBeRemoved t = false ∧ (Trk.onStart C t).data.sounds = [C.sndStart s] := by
+  refine ⟨?_, ?_, ?_, ?_, ?_⟩
+  · simp [Trk.hDrop, Trk.hPlay, Trk.mapData, Trk.build, Trk.data]
+  · simp [Trk.hDrop, Trk.hPlay, Trk.mapData, Trk.build, Trk.data]
+  · simp [Trk.hDrop, Trk.hPlay, Trk.mapData, Trk.build, Trk.data]
+  · simp [Trk.hDrop, Trk.hPlay, Trk.mapData, Trk.build, Trk.shouldBeRemoved, Trk.anyNotRemovable]
+  · simp [Trk.hDrop, Trk.hPlay, Trk.mapData, Trk.build, Trk.onStart, Trk.readCommands, Trk.data, removeAndAdd]
 
-/-- **Finding (c), proved of the model**: a track whose handle is dropped while a sub-track added through
-    it is still in the ring is removable although that sub-track's handle is alive (not marked). -/
-theorem C12_pending_child_lost :
-    ∃ t child : Trk α S E P, t.pending = [child] ∧ child.data.marked = false ∧ Trk.shouldBeRemoved t = true :=
-  ⟨Trk.hDrop (Trk.hAddSubTrack (Trk.build 1 (0.0 : α) [] [] false 1) (Trk.build 0 (0.0 : α) [] [] false 1)),
-    Trk.build 1 (0.0 : α) [] [] false 1,
-    by simp [Trk.hDrop, Trk.hAddSubTrack, Trk.mapData, Trk.build, Trk.pending],
-    by simp [Trk.build, Trk.data],
-    by simp [Trk.hDrop, Trk.hAddSubTrack, Trk.mapData, Trk.build, Trk.shouldBeRemoved, Trk.anyNotRemovable]⟩
+/-- **A sub-track still in the ring keeps its dropped parent** (the history of the repaired finding (c)):
+    add a sub-track through a track's handle and drop that handle before the next callback — the parent is
+    not removable; `on_start_processing` inserts the child; and at the callback after that the parent is
+    still not removable, because the inserted child's handle is alive. -/
+theorem C12_pending_child_kept :
+    let child : Trk α S E P := Trk.build 1 (0.0 : α) [] [] false 1
+    let t : Trk α S E P := Trk.hDrop (Trk.hAddSubTrack child (Trk.build 0 (0.0 : α) [] [] false 1))
+    t.data.marked = true ∧ t.pending = [child] ∧ child.data.marked = false
+      ∧ Trk.shouldBeRemoved t = false
+      ∧ (Trk.onStart C t).children.map (·.data.id) = [1]
+      ∧ Trk.shouldBeRemoved (Trk.onStart C t) = false := by
+  refine ⟨?_, ?_, ?_, ?_, ?_, ?_⟩
+  · simp [Trk.hDrop, Trk.hAddSubTrack, Trk.mapData, Trk.build, Trk.data]
+  · simp [Trk.hDrop, Trk.hAddSubTrack, Trk.mapData, Trk.build, Trk.pending]
+  · simp [Trk.build, Trk.data]
+  · simp [Trk.hDrop, Trk.hAddSubTrack, Trk.mapData, Trk.build, Trk.shouldBeRemoved]
+  · simp [Trk.hDrop, Trk.hAddSubTrack, Trk.mapData, Trk.build, Trk.onStart, Trk.onStartList, Trk.onStartKept,
+      Trk.readCommands, Trk.children, Trk.data]
+  · simp [Trk.hDrop, Trk.hAddSubTrack, Trk.mapData, Trk.build, Trk.onStart, Trk.onStartList, Trk.onStartKept,
+      Trk.readCommands, Trk.shouldBeRemoved, Trk.anyNotRemovable]
 
 /-! ### the state a handle reports -/
 
@@ -143,8 +218,8 @@ theorem C12_pending_child_lost :
 def Mixer.Ok (m : Mixer α S E P) : Prop := Trk.OkList m.subTracks ∧ Trk.OkList m.pendingSubTracks
 
 /-- The mixer states reachable by any history of: creating the mixer; callbacks (`on_start_processing`,
-    then chunks of any length with any lent buffer — provided every clock an inserted track is waiting
-    for exists at that moment); adding sub-tracks to the mixer or to any track; and any handle operation
+    then chunks of any length with any lent buffer and any `Info` — clocks a track is waiting for may
+    exist or not); adding sub-tracks to the mixer or to any track; and any handle operation
     that writes a command, plays a sound or drops a handle (`Trk.mapData g` with `g` leaving the manager
     and the published byte alone: `set_volume`, `set_send`, `pause`, `resume_at`, `play`, drop); and any
     operation that does not touch the sub-track arenas (send tracks, main track). -/
@@ -152,7 +227,7 @@ inductive Mixer.Reach (ibs : Nat) : Mixer α S E P → Prop where
   | new (v : α) (fx : List E) : Mixer.Reach ibs (Mixer.new v fx ibs)
   | onStart (m : Mixer α S E P) : Mixer.Reach ibs m → Mixer.Reach ibs (m.onStart C)
   | process (m : Mixer α S E P) (out : List (Frame α)) (dt : α) (info : Info α) :
-      Mixer.Reach ibs m → Trk.ClocksOkList info.clock m.subTracks → Mixer.Reach ibs (m.process C out dt info).1
+      Mixer.Reach ibs m → Mixer.Reach ibs (m.process C out dt info).1
   | addSubTrack (m : Mixer α S E P) (id : Nat) (v : α) (fx : List E) (sends : List (Nat × α)) (persist : Bool) :
       Mixer.Reach ibs m → Mixer.Reach ibs (m.hAddSubTrack (Trk.build id v fx sends persist ibs))
   | addChild (m : Mixer α S E P) (parent id : Nat) (v : α) (fx : List E) (sends : List (Nat × α)) (persist : Bool) :
@@ -164,7 +239,7 @@ inductive Mixer.Reach (ibs : Nat) : Mixer α S E P → Prop where
   | other (m m' : Mixer α S E P) : Mixer.Reach ibs m → m'.subTracks = m.subTracks →
       m'.pendingSubTracks = m.pendingSubTracks → Mixer.Reach ibs m'
 
-theorem Mixer.reach_ok (hsp : C.SpKeepsClocks) (ibs : Nat) (m : Mixer α S E P) (h : Mixer.Reach C ibs m) :
+theorem Mixer.reach_ok (ibs : Nat) (m : Mixer α S E P) (h : Mixer.Reach C ibs m) :
     Mixer.Ok m := by
   induction h with
   | new v fx => exact ⟨trivial, trivial⟩
@@ -173,8 +248,8 @@ theorem Mixer.reach_ok (hsp : C.SpKeepsClocks) (ibs : Nat) (m : Mixer α S E P) 
     show Trk.OkList ((Trk.onStartList C m.pendingSubTracks).reverse ++ Trk.onStartKept C m.subTracks)
     rw [Trk.okList_append, Trk.okList_reverse]
     exact ⟨(Trk.onStartLists_ok C _ ih.2).2, (Trk.onStartLists_ok C _ ih.1).1⟩
-  | process m out dt info _ hcl ih =>
-    exact ⟨Trk.processChildren_ok C hsp m.subTracks dt info out m.temp m.sendTracks ih.1 hcl, ih.2⟩
+  | process m out dt info _ ih =>
+    exact ⟨Trk.processChildren_ok C m.subTracks dt info out m.temp m.sendTracks ih.1, ih.2⟩
   | addSubTrack m id v fx sends persist _ ih =>
     exact ⟨ih.1, (Trk.okList_append _ _).mpr ⟨ih.2, Trk.build_ok id v fx sends persist ibs, trivial⟩⟩
   | addChild m parent id v fx sends persist _ ih =>
@@ -199,67 +274,87 @@ theorem C12_handle_ops_are_commands (tw : Tween α) (st : StartTime α) (v : Val
   ⟨⟨_, rfl, fun _ => ⟨rfl, rfl⟩⟩, ⟨_, rfl, fun _ => ⟨rfl, rfl⟩⟩, ⟨_, rfl, fun _ => ⟨rfl, rfl⟩⟩,
    ⟨_, rfl, fun _ => ⟨rfl, rfl⟩⟩, ⟨_, rfl, fun _ => ⟨rfl, rfl⟩⟩, ⟨_, rfl, fun _ => ⟨rfl, rfl⟩⟩⟩
 
-/-- **The reported state is decodable — on histories in which every awaited clock exists.**
-    In every mixer state reachable by such a history (`Mixer.Reach`), `TrackHandle::state()` of every
-    track, wherever it is (inserted or still in a ring, at any depth), is one of the five track states
-    (it does not panic), and it is exactly the state of the track's playback-state manager.
-    FULL STATEMENT (all histories) IS FALSE: `C12_state_stopped_reachable`. -/
-theorem C12_state_decodable_partial (hsp : C.SpKeepsClocks) (ibs : Nat) (m : Mixer α S E P)
+/-- **The reported state is always one of the five track states, and querying it cannot panic.**
+    In every mixer state reachable by any history (`Mixer.Reach`: any callbacks with any clocks present
+    or absent, any handle operations), for every track, wherever it is (inserted or still in a ring, at
+    any depth): the playback-state manager is never Stopping / Stopped, the published byte is the
+    manager's state, and `TrackHandle::state()` — a total function (`decodeTrackState`), so there is no
+    panic to reach — returns exactly the manager's state (never through its fallback arm). -/
+theorem C12_state_decodable (ibs : Nat) (m : Mixer α S E P)
     (h : Mixer.Reach C ibs m) (id : Nat) (x : Trk α S E P) (hx : m.findTrack id = some x) :
-    (x.hState).isSome = true ∧ x.data.pubState = x.data.psm.playbackState.toNat := by
-  obtain ⟨h1, h2⟩ := Mixer.reach_ok C hsp ibs m h
+    x.hState.toPlayback = x.data.psm.playbackState
+      ∧ x.data.pubState = x.data.psm.playbackState.toNat
+      ∧ x.data.psm.playbackState ≠ .stopping ∧ x.data.psm.playbackState ≠ .stopped := by
+  obtain ⟨h1, h2⟩ := Mixer.reach_ok C ibs m h
   have hok : Trk.Ok x := by
     unfold Mixer.findTrack at hx
     split at hx
     · rename_i y hy; cases hx; exact Trk.findList_ok id _ _ hy h1
     · exact Trk.findList_ok id _ _ hx h2
   cases x with
-  | node d c p => exact ⟨TrkData.ok_decodable d hok.1, hok.1.2⟩
+  | node d c p =>
+    refine ⟨TrkData.ok_decodable d hok.1, hok.1.2, ?_, ?_⟩ <;>
+    · have hl := hok.1.1
+      unfold Psm.Live at hl
+      simp only [Trk.data, Psm.playbackState]
+      cases hs : d.psm.state <;> simp [hs] at hl ⊢
 
-/-- **`TrackHandle::state()` can panic (finding (a), proved of the model).**  History: a track is paused,
-    `resume_at(ClockTime)` names a clock that does not exist (any more) when the next chunk is rendered.
-    The manager goes `WaitingToResume → Stopped`, the track publishes `6`, which `TrackShared::state`
-    cannot decode ("Invalid playback state"); the track is not advancing and, being Stopped, ignores every
-    later pause / resume: it is silent for ever. -/
-theorem C12_state_stopped_reachable (tw : Tween α) (c : Nat) (ct : ClockTime α) (dt : α) (info : Info α)
+/-- **A track whose awaited clock does not exist stays Paused and can be resumed again** (the history
+    of the repaired finding (a)).  A track is paused, `resume_at(ClockTime)` names a clock that does not
+    exist (any more) when the next chunk is rendered: the handle reports WaitingToResume, then Paused
+    (the manager is Paused, not Stopped); the chunk is silent; and a later `resume` is obeyed — the
+    track is Resuming at the next `on_start_processing`. -/
+theorem C12_missing_clock_leaves_paused (tw : Tween α) (c : Nat) (ct : ClockTime α) (dt : α) (info : Info α)
     (hclock : info.clock c = none) (out : List (Frame α)) (sends : List (SendTrk α E)) :
     let t0 : Trk α S E P := Trk.build 0 (0.0 : α) [] [] false 1
     let t1 := Trk.onStart C (Trk.hResumeAt (.clockTime c ct) tw (Trk.hPause tw t0))
     let t2 := (Trk.process C dt info t1 out sends).1
-    t1.hState = some .waitingToResume
-      ∧ t2.hState = none ∧ t2.data.pubState = 6
-      ∧ (∀ tw' st', (Trk.onStart C (Trk.hResumeAt st' tw' (Trk.hPause tw' t2))).data.psm.state = .stopped) := by
-  refine ⟨?_, ?_, ?_, ?_⟩
+    t1.hState = .waitingToResume
+      ∧ t2.hState = .paused ∧ t2.data.pubState = 2 ∧ t2.data.psm.state = .paused
+      ∧ (Trk.process C dt info t1 out sends).2.1 = zeros out.length
+      ∧ (∀ tw', (Trk.onStart C (Trk.hResumeAt .immediate tw' t2)).hState = .resuming) := by
+  refine ⟨?_, ?_, ?_, ?_, ?_, ?_⟩
   · simp [Trk.onStart, Trk.readCommands, Trk.hResumeAt, Trk.hPause, Trk.mapData, Trk.build, Trk.publish,
       Trk.hState, Trk.data, Psm.pause, Psm.resume, Psm.isStopped, Psm.new, Psm.playbackState,
       PlaybackState.toNat, decodeTrackState]
-  · simp [Trk.onStart, Trk.process, Trk.preUpdate, Trk.advancing, Trk.trackInfo, Trk.readCommands, Trk.hResumeAt,
+  · simp [Trk.onStart, Trk.process, Trk.preUpdate, Trk.pausedIfStopped, Psm.markAsPaused, Trk.advancing,
+      Trk.trackInfo, Trk.readCommands, Trk.hResumeAt,
       Trk.hPause, Trk.mapData, Trk.build, Trk.publish, Trk.hState, Trk.data, Psm.pause, Psm.resume, Psm.isStopped,
       Psm.new, Psm.playbackState, Psm.update, StartTime.update, Info.whenToStart, hclock, PlaybackState.toNat,
       PlaybackState.isAdvancing, decodeTrackState]
-  · simp [Trk.onStart, Trk.process, Trk.preUpdate, Trk.advancing, Trk.trackInfo, Trk.readCommands, Trk.hResumeAt,
-      Trk.hPause, Trk.mapData, Trk.build, Trk.publish, Trk.hState, Trk.data, Psm.pause, Psm.resume, Psm.isStopped,
+  · simp [Trk.onStart, Trk.process, Trk.preUpdate, Trk.pausedIfStopped, Psm.markAsPaused, Trk.advancing,
+      Trk.trackInfo, Trk.readCommands, Trk.hResumeAt,
+      Trk.hPause, Trk.mapData, Trk.build, Trk.publish, Trk.data, Psm.pause, Psm.resume, Psm.isStopped,
       Psm.new, Psm.playbackState, Psm.update, StartTime.update, Info.whenToStart, hclock, PlaybackState.toNat,
       PlaybackState.isAdvancing]
-  · intro tw' st'
-    simp [Trk.onStart, Trk.process, Trk.preUpdate, Trk.advancing, Trk.trackInfo, Trk.readCommands, Trk.hResumeAt,
+  · simp [Trk.onStart, Trk.process, Trk.preUpdate, Trk.pausedIfStopped, Psm.markAsPaused, Trk.advancing,
+      Trk.trackInfo, Trk.readCommands, Trk.hResumeAt,
       Trk.hPause, Trk.mapData, Trk.build, Trk.publish, Trk.data, Psm.pause, Psm.resume, Psm.isStopped,
-      Psm.new, Psm.playbackState, Psm.update, StartTime.update, Info.whenToStart, hclock,
+      Psm.new, Psm.playbackState, Psm.update, StartTime.update, Info.whenToStart, hclock, PlaybackState.toNat,
       PlaybackState.isAdvancing]
+  · simp [Trk.onStart, Trk.process, Trk.preUpdate, Trk.pausedIfStopped, Psm.markAsPaused, Trk.advancing,
+      Trk.trackInfo, Trk.readCommands, Trk.hResumeAt,
+      Trk.hPause, Trk.mapData, Trk.build, Trk.publish, Psm.pause, Psm.resume, Psm.isStopped,
+      Psm.new, Psm.playbackState, Psm.update, StartTime.update, Info.whenToStart, hclock, PlaybackState.toNat,
+      PlaybackState.isAdvancing, fillZero]
+  · intro tw'
+    simp [Trk.onStart, Trk.process, Trk.preUpdate, Trk.pausedIfStopped, Psm.markAsPaused, Trk.advancing,
+      Trk.trackInfo, Trk.readCommands, Trk.hResumeAt,
+      Trk.hPause, Trk.mapData, Trk.build, Trk.publish, Trk.hState, Trk.data, Psm.pause, Psm.resume, Psm.isStopped,
+      Psm.new, Psm.playbackState, Psm.update, StartTime.update, Info.whenToStart, hclock, PlaybackState.toNat,
+      PlaybackState.isAdvancing, decodeTrackState]
 
 /-! ### non-vacuity -/
 
-/-- the history of `C12_state_stopped_reachable` with every clock present stays inside `Mixer.Reach`:
-    e.g. a mixer with one track that was paused and told to resume on an existing clock -/
-example (tw : Tween α) (ct : ClockTime α) (ibs : Nat) :
+/-- `Mixer.Reach` contains the history of the repaired finding: a mixer with one track that was paused
+    and told to resume on clock 3, rendered with an `Info` in which no clock exists -/
+example (tw : Tween α) (ct : ClockTime α) (ibs : Nat) (out : List (Frame α)) (dt : α) (info : Info α) :
     Mixer.Reach C ibs
-      (((((Mixer.new (0.0 : α) [] ibs : Mixer α S E P).hAddSubTrack (Trk.build 0 (0.0 : α) [] [] false ibs)).onStart C).mapTrack 0
+      (((((((Mixer.new (0.0 : α) [] ibs : Mixer α S E P).hAddSubTrack (Trk.build 0 (0.0 : α) [] [] false ibs)).onStart C).mapTrack 0
         (Trk.mapData (fun d => { d with cmdPause := some tw }))).mapTrack 0
-        (Trk.mapData (fun d => { d with cmdResume := some (.clockTime 3 ct, tw) }))) :=
-  .handleOp _ 0 _ (.handleOp _ 0 _ (.onStart _ (.addSubTrack _ 0 _ [] [] false (.new _ []))) (fun _ => ⟨rfl, rfl⟩))
-    (fun _ => ⟨rfl, rfl⟩)
-
-/-- the probe components keep clocks visible to descendants (no spatial tracks) -/
-example : (probeComps : Comps α (PSnd α) (PFx α) Unit).SpKeepsClocks := fun _ _ => rfl
+        (Trk.mapData (fun d => { d with cmdResume := some (.clockTime 3 ct, tw) }))).onStart C).process C out dt
+          { info with clock := fun _ => none }).1 :=
+  .process _ _ _ _ (.onStart _ (.handleOp _ 0 _ (.handleOp _ 0 _ (.onStart _ (.addSubTrack _ 0 _ [] [] false (.new _ [])))
+    (fun _ => ⟨rfl, rfl⟩)) (fun _ => ⟨rfl, rfl⟩)))
 
 end K
